@@ -70,7 +70,7 @@ impl Property for C05 {
     }
 
     fn rule(&self) -> String {
-        "two typed tables (1-6 columns each, shared column names in ~40% of cases) x two files (<= 8 lines each: keys duplicated on either side, NULL, absent on one side, non-admitted lines on both sides) x \
+        "two typed tables (1-6 columns each, shared column names in ~40% of cases) x two files (<= 8 lines each: keys duplicated on either side, NULL, absent on one side, non-admitted lines on both sides; one case in ten: up to 40 + 60 lines over a wide key domain) x \
          join column type INT/TEXT/REAL/BOOLEAN x ON in either order x INNER/OUTER x a SELECT (columns of both sides, qualified names, `*`, WHERE) or an aggregate statement over the joined rows; plus the \
          error cases (missing joined file, join column missing on either side). Oracle: nested loop over admitted r x admitted s with reference equality on non-NULL keys (OUTER adds one NULL-right row per \
          partnerless r), then the C03 / C04 references over the pair rows. Non-trivial: a key with multiplicity >= 2 on one side that has a partner, and a partnerless row; distinct by case."
@@ -87,13 +87,13 @@ impl Property for C05 {
 
     fn cases(&self, tier: Tier) -> u64 {
         match tier {
-            Tier::Quick => 100_000,
+            Tier::Quick => 300_000,
             Tier::Thorough => 1_500_000,
         }
     }
 
     fn tape_len(&self) -> usize {
-        900
+        2000
     }
 
     fn label_floors(&self) -> Vec<(&'static str, f64)> {
@@ -122,8 +122,11 @@ impl Property for C05 {
         let jr = t.draw(right.cols.len());
         left.cols[jl].1 = jty;
         right.cols[jr].1 = jty;
-        let left_lines = small_lines(t, &left, 8);
-        let right_lines = small_lines(t, &right, 8);
+        // one case in ten: dozens of keys and partners (wide key domain, up to 40 + 60 lines); drawn last so that the
+        // rest of the case does not depend on how much tape the lines take
+        let wide = t.chance(1, 10);
+        let left_lines = if wide { Vec::new() } else { small_lines(t, &left, 8) };
+        let right_lines = if wide { Vec::new() } else { small_lines(t, &right, 8) };
 
         let mut lcol = left.cols[jl].0.clone();
         let mut rcol = right.cols[jr].0.clone();
@@ -182,7 +185,9 @@ impl Property for C05 {
                 q.filter = Some(g.gen(t, Ty::Bool, 2));
             }
         }
-        Case { left, right, left_lines, right_lines, query: q, missing_file: t.chance(1, 25) }
+        let missing_file = t.chance(1, 25);
+        let (left_lines, right_lines) = if wide { (crate::props::c04::gen_wide_lines(t, &left, 40), crate::props::c04::gen_wide_lines(t, &right, 60)) } else { (left_lines, right_lines) };
+        Case { left, right, left_lines, right_lines, query: q, missing_file }
     }
 
     fn check(&self, case: &Case, ctx: &Ctx, obs: &mut Obs) -> Result<(), Failure> {
@@ -213,6 +218,9 @@ impl Property for C05 {
 
         if join.outer {
             obs.label("outer");
+        }
+        if case.left_lines.len() + case.right_lines.len() > 30 {
+            obs.label("wide-input");
         }
         if case.right.cols.iter().any(|c| case.left.cols.iter().any(|l| l.0 == c.0)) {
             obs.label("name-clash");
